@@ -5,7 +5,7 @@ From Coq Require Import ZArith List Bool Reals.
 Import ListNotations.
 From Osmo Require Import Base.DecModel C13.Common C13.Sqrt C13.SqrtProofs C13.SigFig C13.SigFigProofs
   C13.BinSearch C13.BinSearchProofs C13.Exp2 C13.Exp2Real C13.Exp2Proofs
-  C13.Log2 C13.Log2Proofs C13.Pow C13.PowProofs Gen.C13_consts.
+  C13.Log2 C13.Log2Proofs C13.Log2Total C13.Pow C13.PowProofs Gen.C13_consts.
 Open Scope Z_scope.
 (* one line per axiom in the Print Assumptions output, so that the check's parser sees every name *)
 Set Printing Width 4000.
@@ -229,6 +229,12 @@ Theorem C13_custom_base_log_domain_fails : forall x base,
   (x <= 0 -> 0 < base -> base <> P36 -> custom_base_log x base = Err ELogDomain).
 Proof. intros x base. split; [apply custom_base_log_base_domain|apply custom_base_log_arg_domain]. Qed.
 Print Assumptions C13_custom_base_log_domain_fails.
+
+(* every representable positive argument gets an answer: no range assertion fires, no loop bound of the model is hit
+   (integers only, axiom-free) *)
+Theorem C13_log2_total : forall x, 0 < x -> bitlen x <= 1144 -> exists r, log_base2 x = Ok r.
+Proof. exact log_base2_total. Qed.
+Print Assumptions C13_log2_total.
 
 Example C13_log2_nonvacuous :
   log_base2 (3 * P36) = Ok 1584962500721156181453738943947816490 /\       (* log2 3 = 1.58496250072115618145373894394781650875... *)
